@@ -1207,6 +1207,47 @@ func c01Excluded(tc l4Case, f *syntax.File, sh *shape) string {
 	}) {
 		return "C01-zsh-dollar-hash-backquote-escape"
 	}
+	// C01-zsh-paren-arg-after-redirect (root cause in the parser): zsh reads `(f)` as an argument
+	// word after a redirection, but `name (f)` as a function declaration; the printer moves
+	// here-document operators behind the arguments, and a command printed on its own has no
+	// redirections at all.
+	if tc.Lang == syntax.LangZsh && sh.any(func(n syntax.Node) bool {
+		c, ok := n.(*syntax.CallExpr)
+		if !ok || len(c.Args) < 2 || len(c.Args[1].Parts) == 0 {
+			return false
+		}
+		l, ok := c.Args[1].Parts[0].(*syntax.Lit)
+		return ok && strings.HasPrefix(l.Value, "(")
+	}) {
+		return "C01-zsh-paren-arg-after-redirect"
+	}
+	// C01-zsh-special-param-subscript (root cause in the parser): whether `$?[ab]` has a subscript
+	// depends on the literal read before it (stale p.val), so the same bytes parse differently in
+	// another context (the word printed on its own, another preceding word).
+	if tc.Lang == syntax.LangZsh && sh.any(func(n syntax.Node) bool {
+		var parts []syntax.WordPart
+		switch x := n.(type) {
+		case *syntax.Word:
+			parts = x.Parts
+		case *syntax.DblQuoted:
+			parts = x.Parts
+		}
+		for i, p := range parts {
+			pe, ok := p.(*syntax.ParamExp)
+			if !ok || !pe.Short || pe.Index != nil || pe.Param == nil || len(pe.Param.Value) != 1 || i+1 >= len(parts) {
+				continue
+			}
+			if c := pe.Param.Value[0]; c >= '0' && c <= '9' || c == '_' || c >= 'a' && c <= 'z' || c >= 'A' && c <= 'Z' {
+				continue
+			}
+			if l, ok := parts[i+1].(*syntax.Lit); ok && strings.HasPrefix(l.Value, "[") {
+				return true
+			}
+		}
+		return false
+	}) {
+		return "C01-zsh-special-param-subscript"
+	}
 	// C01-escaped-cr-before-newline: a word ending in backslash + carriage return printed at the
 	// end of a line makes `\` CR LF, which the lexer reads as an escaped newline.
 	if strings.Contains(tc.Src, "\\\r") && sh.any(func(n syntax.Node) bool {
